@@ -4,7 +4,7 @@ The module globals ``open``, ``NamedTemporaryFile``, ``os`` and ``shutil`` of ti
 rebound (from the harness process; no source hook) to proxies that execute every raw operation on
 the *real files* and number it as a **step** with a before- and an after-hook:
 
-    open  readinto  write  seek  truncate  close  fsync  flush*  unlink  rename  replace
+    open  readinto  write  seek  truncate  text-close  close  fsync  flush*  unlink  rename  replace
     copy-open-dst  copy-chunk  copy-close  copymode
 
 (* the text layer's flush() is a step only when it actually pushed bytes to the raw file.)
@@ -254,6 +254,11 @@ class RecText(io.TextIOWrapper):
             seam.step("flush", ("effective",), lambda: None)
 
     def close(self):
+        seam = self._seam
+        if seam is not None and not self.closed:
+            # the call the library makes is handle.close(): it may fail before anything was closed or flushed,
+            # leaving the handle fully usable (a failure inside the raw close is the separate "close" step)
+            seam.step("text-close", (self.buffer.raw._short(),), lambda: None)
         try:
             super().close()
         finally:
